@@ -6,6 +6,7 @@ CONSTANTS
   MaxLen = 5
   MaxResets = 1
   KeepHist = TRUE
+  WithSnap = FALSE
 CONSTRAINT Bound
 INVARIANT TypeOK
 INVARIANT ContIffNoCause
